@@ -3140,3 +3140,350 @@ def memfs_executor(ctx, solver, tenv, **kw):
     ex.auto = RiviaIndex(ctx.mir, src)
     ex.drop_hook = MM.memfs_drop_hook(ex.auto)
     return ex
+
+
+class MemRun:
+    """Drives a sequence of Memfs trait calls (real MIR) on one symbolic filesystem value."""
+
+    def __init__(self, ctx, tag, vlen=1, visits=400):
+        self.ctx = ctx
+        self.solver = ctx.solver(tag)
+        self.tenv = M.TextEnv(self.solver, vlen)
+        self.ex = memfs_executor(ctx, self.solver, self.tenv, max_block_visits=visits)
+        self.ob = Obl()
+
+    def fn(self, name):
+        f = self.ex.auto.resolve("<Memfs as VirtualFileSystem>::%s" % name)
+        if f is None:
+            raise Unsupported("Memfs::%s not found in the MIR dump" % name)
+        return f
+
+    def explore(self, tree, cwd, calls, cons, on_done):
+        """calls: [(method, [values])]; on_done(st, results, inner) is invoked per completed path"""
+        ex = self.ex
+        memfs, inner = mk_memfs(tree, cwd)
+
+        def on_path(st):
+            i = st.meta["i"]
+            if st.panic or st.bound_hit:
+                on_done(st, st.meta["results"] + [("panic" if st.panic else "bound", st.panic or st.bound_hit)], st.meta["inner"], i)
+                return
+            if i >= 0:
+                st.meta["results"] = st.meta["results"] + [("ret", st.retval)]
+            i += 1
+            if i >= len(calls):
+                on_done(st, st.meta["results"], st.meta["inner"], i)
+                return
+            name, vals = calls[i]
+            hook = st.meta.get("before_hook")
+            st2 = ex.start(self.fn(name), [BoxRef(st.meta["memfs"])] + list(vals))
+            st2.pc = list(st.pc)
+            st2.meta = dict(st.meta)
+            st2.meta["i"] = i
+            if i == len(calls) - 1:
+                st2.meta["before"] = snapshot_store(ex, st, st.meta["inner"])
+            return [st2]
+
+        from .mirsym.engine import State
+        st0 = State()
+        st0.done = True
+        st0.meta = dict(i=-1, results=[], memfs=memfs, inner=inner)
+        st0.pc = list(cons)
+        ex.explore(st0, on_path)
+
+
+def snapshot_store(ex, st, inner):
+    """immutable copy of the observable store: cwd, entries (key, fields), files (key, bytes)"""
+    iv = ex.deref(st, inner)
+    ents = []
+    for k, v in iv.fields[2].items:
+        e = v.obj
+        names = None
+        if e.fields[11].variant == 1:
+            names = [list(x) for x in M._obj(ex, st, e.fields[11].fields[0]).items]
+        ents.append(dict(key=list(k), path=list(e.fields[0].chars), alt=list(e.fields[1].chars), rel=list(e.fields[2].chars),
+                         dir=e.fields[3], file=e.fields[4], link=e.fields[5], mode=e.fields[6], uid=e.fields[7], gid=e.fields[8],
+                         names=names))
+    files = [dict(key=list(k), data=list(M._obj(ex, st, v.obj.fields[1]).items)) for k, v in iv.fields[3].items]
+    return dict(cwd=list(iv.fields[0].chars), root=list(iv.fields[1].chars), entries=ents, files=files)
+
+
+def find_key(ex, st, items, key):
+    for it in items:
+        if ex.decide(st, TP.path_eq_text(ex, st, it["key"], key)):
+            return it
+    return None
+
+
+def store_wf(ex, st, s):
+    """C03 invariants on a snapshot: list of (description, B)"""
+    from .mirsym.values import bv_bin
+    out = []
+    out.append(("C03: cwd and root are absolute", b_and(TP.is_ch(s["cwd"][0], TP.SLASH) if s["cwd"] else B(False),
+                                                        TP.is_ch(s["root"][0], TP.SLASH) if s["root"] else B(False))))
+    for e in s["entries"]:
+        out.append(("C03: every entry reports the path it is stored under", TP.path_eq_text(ex, st, e["path"], e["key"])))
+        toks = TP.tokenize(ex, st, e["key"])
+        if len(toks) == 1 and toks[0][0].kind == ROOT:
+            continue
+        parent = TP.parent_text(ex, st, e["key"])
+        if parent is None:
+            out.append(("C03: a non-root entry has a parent path", B(False)))
+            continue
+        pe = find_key(ex, st, s["entries"], parent)
+        if pe is None:
+            out.append(("C03: every existing path other than the root has an existing parent", B(False)))
+            continue
+        out.append(("C03: the parent of an entry is a real directory", b_and(pe["dir"], b_not(pe["link"]))))
+        base = toks[-1][0].text
+        listed = pe["names"] is not None and any(len(n) == len(base) and ex.decide(st, M.chars_eq(n, base)) for n in pe["names"])
+        out.append(("C03: the parent directory lists the entry", B(bool(listed))))
+    for e in s["entries"]:
+        if e["names"] is None:
+            continue
+        for n in e["names"]:
+            buf = TP.PathBufT(e["key"])
+            TP.push_text(ex, st, buf, n)
+            out.append(("C03: every name a directory lists exists", B(find_key(ex, st, s["entries"], buf.chars) is not None)))
+        # no duplicates in a listing
+        for i in range(len(e["names"])):
+            for j in range(i + 1, len(e["names"])):
+                a, b = e["names"][i], e["names"][j]
+                if len(a) == len(b):
+                    out.append(("C03: a directory lists a name once", b_not(M.chars_eq(a, b)) if a else B(False)))
+    for e in s["entries"]:
+        is_reg = b_and(e["file"], b_not(e["link"]))
+        has = find_key(ex, st, s["files"], e["key"]) is not None
+        if ex.decide(st, is_reg):
+            out.append(("C03: every regular file has byte content", B(has)))
+        else:
+            out.append(("C03: only regular non-link files have byte content", B(not has)))
+    for f in s["files"]:
+        out.append(("C03: no dangling file data", B(find_key(ex, st, s["entries"], f["key"]) is not None)))
+    # keys are unique
+    for i in range(len(s["entries"])):
+        for j in range(i + 1, len(s["entries"])):
+            out.append(("C03: no path is stored twice", b_not(TP.path_eq_text(ex, st, s["entries"][i]["key"], s["entries"][j]["key"]))))
+    return out
+
+
+def store_same(ex, st, a, b):
+    """B: the two snapshots denote the same observable tree"""
+    from .mirsym.values import bv_bin, b_eq
+    if len(a["entries"]) != len(b["entries"]) or len(a["files"]) != len(b["files"]):
+        return B(False)
+    conj = [TP.path_eq_text(ex, st, a["cwd"], b["cwd"])]
+    for e in a["entries"]:
+        o = find_key(ex, st, b["entries"], e["key"])
+        if o is None:
+            return B(False)
+        conj += [b_eq(e["dir"], o["dir"]), b_eq(e["file"], o["file"]), b_eq(e["link"], o["link"]), bv_bin("Eq", e["mode"], o["mode"]),
+                 bv_bin("Eq", e["uid"], o["uid"]), bv_bin("Eq", e["gid"], o["gid"]), TP.path_eq_text(ex, st, e["alt"], o["alt"])]
+        if (e["names"] is None) != (o["names"] is None):
+            return B(False)
+        if e["names"] is not None:
+            if len(e["names"]) != len(o["names"]):
+                return B(False)
+            for n in e["names"]:
+                if not any(len(n) == len(m) and ex.decide(st, M.chars_eq(n, m) if n else B(True)) for m in o["names"]):
+                    return B(False)
+    for f in a["files"]:
+        o = find_key(ex, st, b["files"], f["key"])
+        if o is None or len(o["data"]) != len(f["data"]):
+            return B(False)
+        conj += [bv_bin("Eq", x, y) for x, y in zip(f["data"], o["data"])]
+    return b_and(*conj)
+
+
+TREE1 = {"/": ("d", ["a", "b"]), "/a": ("d", ["b"]), "/a/b": ("f", "x"), "/b": ("f", "yz")}
+MEM_ALPHA = "/ab."
+
+# method -> (argument kinds, may it report failure and must then leave the tree untouched?)
+MEM_OPS = {
+    "mkfile": (["path"], True), "mkdir_p": (["path"], True), "mkdir_m": (["path", "mode"], True),
+    "write_all": (["path", "data"], True), "append_all": (["path", "data"], True), "remove": (["path"], True),
+    "remove_all": (["path"], False), "symlink": (["path2", "path2"], True), "set_cwd": (["path"], True),
+    "move_p": (["path2", "path2"], True), "exists": (["path"], False), "is_dir": (["path"], False),
+    "is_file": (["path"], False), "is_symlink": (["path"], False), "read_all": (["path"], False), "mode": (["path"], False),
+    "readlink": (["path"], False), "readlink_abs": (["path"], False), "chmod": (["path", "mode"], False),
+    "copy": (["path2", "path2"], False),
+}
+
+
+def mem_args(solver, tag, kinds, n, n2):
+    vals, cons, groups = [], [], {}
+    for i, k in enumerate(kinds):
+        if k in ("path", "path2"):
+            L = n if k == "path" else n2
+            c, _ = sym_text(solver, "%s_p%d" % (tag, i), L)
+            cons += ["(or %s)" % " ".join("(= %s (_ bv%d 32))" % (x.v, ord(a)) for a in MEM_ALPHA) for x in c]
+            vals.append(BoxRef(M.SStr(c)))
+            groups["arg%d" % i] = c
+        elif k == "data":
+            c, cc = sym_text(solver, "%s_d%d" % (tag, i), 1, ascii_only=True)
+            cons += cc + ["(not (= %s #x00000000))" % c[0].v]
+            vals.append(BoxRef(M.SStr(c)))
+            groups["data%d" % i] = c
+        elif k == "mode":
+            nm = "%s_m%d" % (tag, i)
+            solver.declare(nm, "(_ BitVec 32)")
+            cons.append("(bvule %s #x000001ff)" % nm)
+            vals.append(BV(32, False, nm))
+    return vals, cons, groups
+
+
+def run_memfs_single(ctx, prop, ops, nmax, n2max, cwds=("/", "/a"), tag="mem_single"):
+    t0 = time.time()
+    run = MemRun(ctx, tag)
+    ex, ob = run.ex, run.ob
+    unit = dict(status="pass", failures=[])
+    for op in ops:
+        kinds, atomic = MEM_OPS[op]
+        two = kinds.count("path2") == 2
+        shapes = [(a, b) for a in range(1, n2max + 1) for b in range(1, n2max + 1)] if two else [(n, 0) for n in range(1, nmax + 1)]
+        if two and tag.endswith("two3"):
+            shapes = [(a, b) for a, b in shapes if max(a, b) == 3]
+        for cwd in cwds:
+            for (la, lb) in shapes:
+                vals, cons, groups = [], [], {}
+                tagx = "%s_%s_%s_%d_%d" % (tag, op, cwd.replace("/", "r"), la, lb)
+                if two:
+                    v1, c1, g1 = mem_args(run.solver, tagx + "a", ["path2"], la, la)
+                    v2, c2, g2 = mem_args(run.solver, tagx + "b", ["path2"], lb, lb)
+                    vals, cons = v1 + v2, c1 + c2
+                    groups = {"arg0": g1["arg0"], "arg1": g2["arg0"]}
+                else:
+                    vals, cons, groups = mem_args(run.solver, tagx, kinds, la, la)
+
+                def on_done(st, results, inner, i, op=op, groups=groups, cwd=cwd, atomic=atomic):
+                    cf = lambda extra: text_model(ex, st, groups, extra)
+                    last = results[-1]
+                    if last[0] in ("panic", "bound"):
+                        ob.total += 1
+                        ob.failures.append(dict(kind="panic" if last[0] == "panic" else "bound", where="Memfs::" + op, op=op, cwd=cwd,
+                                                cex=cf([]), desc="C12: Memfs::%s panics/loops: %s" % (op, last[1])))
+                        return
+                    after = snapshot_store(ex, st, inner)
+                    for desc, f in store_wf(ex, st, after):
+                        ob.prove(ex, st, desc + " (after %s, cwd %s)" % (op, cwd), f, cf) or ob.failures[-1].update(op=op, cwd=cwd, where="Memfs::" + op)
+                    rv = last[1]
+                    failed = isinstance(rv, Adt) and rv.ty == "Result" and rv.variant == 1
+                    if atomic and failed:
+                        ob.prove(ex, st, "C01: a failed %s leaves the tree exactly as it was (cwd %s)" % (op, cwd),
+                                 store_same(ex, st, st.meta["before"], after), cf) or ob.failures[-1].update(op=op, cwd=cwd, where="Memfs::" + op)
+                    if len(ob.samples) < 5:
+                        m = cf([])
+                        if m:
+                            ob.samples.append(dict(op=op, cwd=cwd, args=m, failed=failed))
+
+                run.explore(TREE1, cwd, [(op, vals)], cons, on_done)
+    seen = set()
+    for f in ob.failures:
+        if f["kind"] == "bound" or f["cex"] is None:
+            unit["status"], unit["why"] = "inconclusive", f["desc"]
+            continue
+        key = (f["op"], re.sub(r" \(after.*", "", f["desc"]))
+        if key in seen or len(seen) >= 6:
+            continue
+        seen.add(key)
+        src = mem_replay_src(f)
+        r = native_test(src, ctx.logdir, "%s_%d" % (tag, len(seen)))
+        reproduced = r["ran"] and r["failed"] > 0
+        rec = dict(kind=f["kind"], desc='"%s" args=%r' % (f["desc"], f["cex"]), where=f.get("where", ""), reproduced=reproduced,
+                   replay_outcome=r["out"][-500:])
+        if reproduced:
+            rec["replay"] = save_replay(prop, tag, src, f["desc"], dict(failed=r["failed"]))
+        unit["failures"].append(rec)
+        unit["status"] = "violation"
+    return finish(unit, ex, run.solver, ob, t0, dict(models_used="Memfs executed from MIR (rivia code auto-inlined); HashMap/HashSet/Arc/RwLock/Box<dyn> models; text-level paths"))
+
+
+MEM_REPLAY_PRELUDE = '''use rivia::prelude::*;
+
+fn dump(v: &Memfs) -> String {
+    let mut out = String::new();
+    let mut paths = v.all_paths("/").unwrap_or_default();
+    paths.sort();
+    for p in paths {
+        let kind = if v.is_symlink(&p) { format!("link->{:?}", v.readlink_abs(&p).ok()) } else if v.is_dir(&p) { "dir".to_string() } else { format!("file{:?}", v.read_all(&p).ok()) };
+        out += &format!("{:?} {} {:o} {:?}\\n", p, kind, v.mode(&p).unwrap_or(0), v.owner(&p).ok());
+    }
+    out + &format!("cwd={:?}", v.cwd().ok())
+}
+
+// every existing path has an existing real-directory parent that lists it; listings only name existing paths
+fn well_formed(v: &Memfs) -> Result<(), String> {
+    let all = v.all_paths("/").map_err(|e| e.to_string())?;
+    for p in &all {
+        let parent = p.parent().ok_or("no parent")?.to_path_buf();
+        if !v.is_dir(&parent) || v.is_symlink(&parent) { return Err(format!("parent of {:?} is not a real directory", p)); }
+        if !v.paths(&parent).map_err(|e| e.to_string())?.contains(p) { return Err(format!("{:?} is not listed by its parent", p)); }
+        if !v.exists(p) { return Err(format!("{:?} is listed but does not exist", p)); }
+        if v.is_file(p) && !v.is_symlink(p) && v.read_all(p).is_err() { return Err(format!("regular file {:?} has no content", p)); }
+    }
+    if !v.cwd().map_err(|e| e.to_string())?.is_absolute() { return Err("cwd is not absolute".into()); }
+    Ok(())
+}
+
+fn fixture() -> Memfs {
+    let v = Memfs::new();
+    v.mkdir_p("/a").unwrap();
+    v.write_all("/a/b", "x").unwrap();
+    v.write_all("/b", "yz").unwrap();
+    v
+}
+'''
+
+
+def mem_replay_src(f):
+    op, cwd, a = f["op"], f["cwd"], f["cex"]
+    kinds = MEM_OPS[op][0]
+    args = []
+    for i, k in enumerate(kinds):
+        if k in ("path", "path2"):
+            args.append(rs_str(a["arg%d" % i]))
+        elif k == "data":
+            args.append(rs_str(a["data%d" % i]))
+        else:
+            args.append("0o644")
+    call = "v.%s(%s)" % (op, ", ".join(args))
+    return MEM_REPLAY_PRELUDE + '''
+#[test]
+fn replay_memfs_op() {
+    // %s
+    let v = fixture();
+    v.set_cwd(%s).unwrap();
+    let before = dump(&v);
+    let r = %s;
+    let failed = format!("{:?}", r).starts_with("Err");
+    if let Err(e) = well_formed(&v) {
+        panic!("C03: tree not well formed after %s: {}\\n{}", e, dump(&v));
+    }
+    if failed && %s {
+        assert_eq!(dump(&v), before, "C01: failed %s changed the tree");
+    }
+}
+''' % (f["desc"], rs_str(cwd), call, op, "true" if MEM_OPS[op][1] else "false", op)
+
+
+MEM_FUNCS = ["Memfs::{%s} and everything they call, executed from MIR (auto-inlined rivia code): _abs, _add, _mkdir_m, _symlink, MemfsGuard::*, "
+             "MemfsEntry::*, MemfsEntryOpts::*, MemfsFile::{write,flush,sync,drop,clone,seek}, sys::{expand,clean,mash,dir,base,relative,...}"]
+
+
+def _mk_mem_single(name, ops, nmax, n2max, tier):
+    @job(name, ["C03", "C01", "C12"], tier, functions=[MEM_FUNCS[0] % ",".join(ops)],
+         bounds="one call from the tree {/, /a, /a/b, /b} with cwd '/' and '/a': every path text of 1..=%d chars over {'/','a','b','.'} "
+                "(two-path calls: 1..=%d chars each), data any 1 ASCII char, mode any value <= 0o777" % (nmax, n2max))
+    def f(ctx, prop):
+        return run_memfs_single(ctx, prop, ops, nmax, n2max, tag=name)
+    return f
+
+
+_mk_mem_single("c03_mem_create", ["mkfile", "mkdir_p", "mkdir_m"], 3, 2, "quick")
+_mk_mem_single("c03_mem_write", ["write_all", "append_all", "set_cwd"], 3, 2, "quick")
+_mk_mem_single("c03_mem_remove", ["remove", "remove_all"], 3, 2, "quick")
+_mk_mem_single("c03_mem_symlink", ["symlink"], 3, 2, "quick")
+_mk_mem_single("c03_mem_move", ["move_p"], 3, 2, "quick")
+_mk_mem_single("c03_mem_create4", ["mkfile", "mkdir_p"], 4, 2, "thorough")
+_mk_mem_single("c03_mem_write4", ["write_all", "append_all", "set_cwd", "remove"], 4, 2, "thorough")
+_mk_mem_single("c03_mem_two3", ["symlink", "move_p"], 3, 3, "thorough")
